@@ -452,6 +452,7 @@ pub fn run<P: Prop>(prop: &P, opts: &Opts) -> i32 {
                             failure_persistence: None,
                             rng_seed: RngSeed::Fixed(seed),
                             max_shrink_iters: 20000,
+                            max_shrink_time: 45_000,
                             verbose: 0,
                             ..Config::default()
                         };
